@@ -392,6 +392,28 @@ Theorem C13_fullscan_on_engine_bytes :
 Proof. exact fullscan_store. Qed.
 Print Assumptions C13_fullscan_on_engine_bytes.
 
+(* (15) which cursor texts mean "from the start": parseScanArgs takes the cursor literally, so only the empty
+   cursor does. By (1)-(4) every cursor a scan hands out is the non-empty name of the last element of its page;
+   hence no cursor the scan itself returns is taken for the start. A non-empty start sentinel is impossible:
+   with redis' "0" an element really named "0" that ends a page sends a forward scan back to the beginning
+   (it never terminates) and ends a reverse scan early (elements below "0" are lost). *)
+Theorem C13_cursor_taken_literally : forall c, parse_cursor c = c /\ (parse_cursor c = [] <-> c = []).
+Proof. intro c. split; [apply parse_cursor_literal|apply parse_cursor_start]. Qed.
+Print Assumptions C13_cursor_taken_literally.
+
+Theorem C13_zero_sentinel_refuted :
+  is_sorted sentinel_db = true /\
+  iterate 10 (fun c => coll_scan_command mini_compile sentinel_db hash_type [116] [104] true false c [] 1) [] =
+    ([([[45; 49]], [45; 49]); ([[48]], [48]); ([[48; 48]], [48; 48]); ([], [])], Done) /\
+  snd (iterate 10
+         (fun c => coll_scan_command mini_compile sentinel_db hash_type [116] [104] true false (zero_sentinel c) [] 1) [])
+    = OutOfFuel /\
+  map fst (fst (iterate 10
+         (fun c => coll_scan_command mini_compile sentinel_db hash_type [116] [104] true true (zero_sentinel c) [] 1) [255]))
+    = [[[48; 48]]; [[48]]; []].
+Proof. exact zero_sentinel_refuted. Qed.
+Print Assumptions C13_zero_sentinel_refuted.
+
 (* ---------- non-vacuity: a concrete store ---------- *)
 (* hash t:h = {a, ab, b}, hash t:h2 = {a}, set t:h = {a}; KV keys t:a t:ab t:b t2:a u:a *)
 Definition ex_db : list bytes :=
